@@ -334,6 +334,9 @@ def check(chk, fx):
     chk.rule("TRACE", "trace labels whose printed operand must be the action's operand", 4)
     _trace(chk, fx)
     _trace_recognized(chk, fx)
+    # "with any error-stream type or none": the stream-less and option-less overloads hand everything else on unchanged
+    from .. import primrules
+    primrules.prims(chk, fx, "OVL")
     # every name the trace prints comes out of term_names / nterm_names: how they are filled
     from .. import primrules
     primrules.prims(chk, fx, "NAMEFILL")
